@@ -9,6 +9,7 @@
 package cert
 
 import (
+	"bytes"
 	"crypto"
 	"crypto/ecdsa"
 	"crypto/elliptic"
@@ -449,6 +450,59 @@ func (c *CertificateRequest) WritePem(w io.Writer) error {
 	return nil
 }
 
+// Mirrors a certificate just far enough to reach both names the way they
+// are encoded. Decoding a name into [pkix.RDNSequence] turns every string
+// type into a Go string; encoding it again picks PrintableString or
+// UTF8String, whatever the original was.
+type rawNameAttribute struct {
+	Type  asn1.ObjectIdentifier
+	Value asn1.RawValue
+}
+
+type rawNameRdnSET []rawNameAttribute
+
+type rawNameCertificate struct {
+	TBSCertificate struct {
+		Version            int `asn1:"optional,explicit,default:0,tag:0"`
+		SerialNumber       *big.Int
+		SignatureAlgorithm asn1.RawValue
+		Issuer             []rawNameRdnSET
+		Validity           asn1.RawValue
+		Subject            []rawNameRdnSET
+	}
+}
+
+// Certificates issued under an imported certificate must repeat its subject
+// byte for byte. Wherever re-encoding an attribute value of the imported
+// certificate would not reproduce the original (UTF8String used for plain
+// text, IA5String, TeletexString, ...), the value is kept in its encoded form.
+func preserveNameEncoding(der []byte, c *Certificate) {
+	raw := rawNameCertificate{}
+	if _, err := asn1.Unmarshal(der, &raw); err != nil {
+		return
+	}
+
+	keep := func(decoded pkix.RDNSequence, encoded []rawNameRdnSET) {
+		if len(decoded) != len(encoded) {
+			return
+		}
+		for i := range decoded {
+			if len(decoded[i]) != len(encoded[i]) {
+				return
+			}
+			for j := range decoded[i] {
+				again, err := asn1.Marshal(decoded[i][j].Value)
+				if err != nil || !bytes.Equal(again, encoded[i][j].Value.FullBytes) {
+					decoded[i][j].Value = asn1.RawValue{FullBytes: encoded[i][j].Value.FullBytes}
+				}
+			}
+		}
+	}
+
+	keep(c.TBSCertificate.Issuer, raw.TBSCertificate.Issuer)
+	keep(c.TBSCertificate.Subject, raw.TBSCertificate.Subject)
+}
+
 func ReadPem(pemBytes []byte) (PemFileContent, error) {
 	var p *pem.Block
 	var err error
@@ -471,6 +525,7 @@ func ReadPem(pemBytes []byte) (PemFileContent, error) {
 			if err != nil {
 				return pemFileContent, err
 			}
+			preserveNameEncoding(p.Bytes, cert)
 			pemFileContent.Certificate = cert
 
 		case "CERTIFICATE REQUEST":
